@@ -131,7 +131,10 @@ def ob_recovery_image(ex, nrec, U=2, HU=2, N=2):
         st0.meta["blobs"] = blobs
         io.disk = RecDisk(disk)
         fn = find_fn(ex, "::load", "index::manager")
-        cfgv = VStruct("Config", [VEnum("SyncMode", 0, {0: [], 1: []}), VInt(N, "u64"), VBool(False), VBool(False), VBool(False), VBool(False)])
+        from structs import mk
+        cfgv = mk(ex, st0, "Config", sync_mode=VEnum("SyncMode", 0, {0: [], 1: []}), num_ops_per_wal=VInt(N, "u64"),
+                  pre_create_cas_dirs=VBool(False), scan_orphans_on_startup=VBool(False), verify_blob_integrity=VBool(False),
+                  fail_on_integrity_errors=VBool(False))
         finals = []
         try:
             for st, groups in (disk.groups(ex, st0) if nrec else [(st0, [])]):
@@ -233,7 +236,8 @@ def ob_recovery_image(ex, nrec, U=2, HU=2, N=2):
                 posts["every key of the recovered map has its blob"] = z3.And([z3.Implies(r0pk[u], z3.Select(cur_blobs, r0hk[u])) for u in range(w.U)])
                 if last and isok and f.status == "returned":
                     idx = f.retval.payloads[0][0]
-                    stv = idx.fields[1].fields[0].fields[0]          # Arc<RwLock<IndexState>>
+                    from structs import fget
+                    stv = fget(ex, idx, "Index", "state").fields[0].fields[0]          # Arc<RwLock<IndexState>>
                     post = w.snapshot_of(f, stv)
                     posts["at return the in-memory map is the recovered map"] = z3.And(
                         [z3.And(post["pk"][u] == r0pk[u], z3.Implies(r0pk[u], post["hk"][u] == r0hk[u])) for u in range(w.U)])
@@ -245,8 +249,8 @@ def ob_recovery_image(ex, nrec, U=2, HU=2, N=2):
                     posts["at return every key has the size its last record gave it"] = z3.And(
                         [z3.Implies(r0pk[u], post["sk"][u] == r0sk[u]) for u in range(w.U)])
                     posts["at return reference counts and statistics are exact for the recovered map (C12 invariant)"] = w.invariant(post)
-                    walv = idx.fields[2].fields[0]
-                    posts["at return next_op_version = highest version on disk + 1"] = walv.fields[1].t == hi + 1
+                    walv = fget(ex, idx, "Index", "wal").fields[0]
+                    posts["at return next_op_version = highest version on disk + 1"] = fget(ex, walv, "WalManager", "next_op_version").t == hi + 1
                     nseg_ok = z3.Or([z3.And(s * N < hi + 1, hi + 1 <= (s + 1) * N) for s in
                                      [disk.segs[g[0]] for g in f.meta.get("groups", [])] + created_segs(f)] or [z3.BoolVal(False)])
                     # a segment pruned by the after-replay checkpoint cannot be the one of `next`
